@@ -208,7 +208,7 @@ func runC05(c *sim.Ctx) *sim.Violation {
 			o = Outcome{Kind: "panic", Pan: rpi}
 		case rerr == nil && !isNilPacket(p):
 			o = Outcome{Kind: "packet", Type: drv.TypeOf(p), P: p}
-		case rerr != nil && isNilPacket(p):
+		case rerr != nil && p == nil:
 			o = Outcome{Kind: "error", Err: rerr}
 		default:
 			o = Outcome{Kind: "shape", Err: rerr, P: p}
